@@ -1355,7 +1355,12 @@ func (r *Report) replayOnce(o *Obligation, dir string, log *strings.Builder, mod
 	if needRuntime {
 		fmt.Fprintf(&src, "\t\t\tif d, ok := zzR.(zzDivergence); ok {\n\t\t\t\tzzT.Skipf(\"REPLAY-DIVERGED: %%s\", d.msg)\n\t\t\t}\n")
 	}
-	fmt.Fprintf(&src, "\t\t\tzzT.Fatalf(\"REPLAY-VIOLATION obligation %s: panic: %%v\", zzR)\n\t\t}\n\t}()\n", o.Name)
+	if o.Kind == "callpre" {
+		// only the callee's stub can witness a violated precondition; a panic on the way is something else
+		fmt.Fprintf(&src, "\t\t\tzzT.Skipf(\"REPLAY-DIVERGED: panic before the call was reached: %%v\", zzR)\n\t\t}\n\t}()\n")
+	} else {
+		fmt.Fprintf(&src, "\t\t\tzzT.Fatalf(\"REPLAY-VIOLATION obligation %s: panic: %%v\", zzR)\n\t\t}\n\t}()\n", o.Name)
+	}
 	if len(resNames) > 0 {
 		fmt.Fprintf(&src, "\t%s := %s\n", strings.Join(resNames, ", "), call)
 		for _, n := range resNames {
